@@ -3,6 +3,7 @@ package traversal
 import (
 	"context"
 	"errors"
+	"net/netip"
 	"sync/atomic"
 
 	"github.com/anacrolix/chansync"
@@ -75,6 +76,12 @@ func Start(input OperationInput) *Operation {
 
 type addrString string
 
+// The key under which an address counts as queried: IP and port, whichever form the IP was reported
+// in (an IPv4 address and the same address v4-mapped into IPv6 are one endpoint).
+func queriedKey(addr krpc.NodeAddrPort) addrString {
+	return addrString(netip.AddrPortFrom(addr.Addr().Unmap(), addr.Port()).String())
+}
+
 type Operation struct {
 	stats        Stats
 	mu           sync.Mutex
@@ -125,7 +132,7 @@ func (op *Operation) Stalled() events.Active {
 }
 
 func (op *Operation) addNodeLocked(n types.AddrMaybeId) (err error) {
-	if _, ok := op.queried[addrString(n.Addr.String())]; ok {
+	if _, ok := op.queried[queriedKey(n.Addr)]; ok {
 		err = errors.New("already queried")
 		verifEv(op, verifAddNode(n, "queried", op))
 		return
@@ -160,7 +167,7 @@ func (op *Operation) AddNodes(nodes []types.AddrMaybeId) (added int) {
 }
 
 func (op *Operation) markQueried(addr krpc.NodeAddrPort) {
-	op.queried[addrString(addr.String())] = struct{}{}
+	op.queried[queriedKey(addr)] = struct{}{}
 }
 
 func (op *Operation) closestUnqueried() (ret types.AddrMaybeId) {
@@ -178,7 +185,7 @@ func (op *Operation) haveQuery() bool {
 	// candidates left behind for an address that has since been queried, so it's never asked twice.
 	for op.unqueried.Len() != 0 {
 		cu := op.closestUnqueried()
-		if _, ok := op.queried[addrString(cu.Addr.String())]; !ok {
+		if _, ok := op.queried[queriedKey(cu.Addr)]; !ok {
 			break
 		}
 		op.unqueried = op.unqueried.Delete(cu)
